@@ -1,4 +1,5 @@
 import ChipFiring.Theory.RankTheory
+import ChipFiring.Theory.GoodOf
 /-
   C03 — Rank equals the Baker–Norine rank in both calculation modes.
 
@@ -143,5 +144,10 @@ example : ∃ G : Graph 3, Graph.new 3 false [(0, 1, 2), (1, 2, 2), (0, 2, 2)] =
     okVal (rank G 1000 (Divisor.ofFn fun v => [2, 3, 1].getD v.1 0) false) = some 2 ∧
     okVal (rank G 1000 (Divisor.ofFn fun v => [2, 3, 1].getD v.1 0) true) = some 2 := by
   refine ⟨_, rfl, by decide +kernel, by decide +kernel⟩
+
+/-- Headline form on connected graphs -/
+theorem rank_plain_exact_connected (G : Graph n) (hG : G.WF) (hc : G.Connected) (hn : 0 < n) (fuel : Nat)
+    (Dv : Divisor n) (r : Int) (h : rank G fuel Dv false = some (.ok r)) : IsRank G Dv.deg r :=
+  rank_plain_exact G (good_of_connected G hG hc hn) fuel Dv r h
 
 end CF.C03
